@@ -370,6 +370,30 @@ def body_strop(I, case):
     I.prove('strop-independent-of-earlier-polygons', r1 == r2)
 
 
+def legal_structure(netname):
+    """the concrete structure of the legaliser model of a design: constraint groups with their equation names, and the variable list"""
+    from fv.props.c09 import NETS
+    mods = NETS[netname]
+    names = list(mods)
+    net = Netlist({'Modules': mods, 'Nets': [names] if len(names) > 1 else []})
+    ml, al, xl, yl, wl, hl, hyper, og = LF.netlist_to_utils(net)
+    m = LF.Model(ml, al, xl, yl, wl, hl, 10.0, 8.0, hyper, 2.0, og, 0.9, 0.3, 1)
+    m.time_advance(200)
+    eqs = [[g, e.name] for g, es in list(m.gekko.constraints.items()) + list(m.gekko.macro_constraints.items()) for e in es]
+    return eqs, [v.data['name'] for v in m.gekko.variable_list]
+
+
+def fresh_interpreter_legal_structure(netname):
+    """the same, computed alone in a really fresh interpreter: state the harness does not know about cannot leak into this reference"""
+    import json
+    import os
+    import subprocess
+    code = ("import sys, json; sys.path[:0] = ['/verif', '/repo']; from fv.props import c20; "
+            "print(json.dumps(c20.legal_structure(sys.argv[1])))")
+    p = subprocess.run(['/venv/bin/python', '-c', code, netname], capture_output=True, text=True, env=dict(os.environ, PYTHONHASHSEED='0'), timeout=300)
+    return json.loads(p.stdout.strip().splitlines()[-1])
+
+
 def body_legal(I, case):
     from fv.props.c09 import NETS
 
@@ -410,6 +434,14 @@ def body_legal(I, case):
     n2, o2, v2 = probe()
     I.reached('legal')
     I.prove('legaliser-model-has-the-same-equations-and-variables', n1 == n2 and v1 == v2)
+    # the model built after the history has the structure the same design gets in a fresh interpreter
+    ref_eqs, ref_vars = fresh_interpreter_legal_structure(case['net'])
+    fresh_state()
+    Rectangle.set_epsilon(1e-10)
+    other = build('softNN')
+    ET.turn_off_flag(1)
+    eqs_h, vars_h = legal_structure(case['net'])
+    I.prove('legaliser-model-structure-as-in-a-fresh-interpreter', [list(x) for x in eqs_h] == [list(x) for x in ref_eqs] and list(vars_h) == list(ref_vars))
     I.prove('legaliser-equations-mean-the-same', And(*[Iff(a, b) for a, b in zip(o1, o2)]), side=True)
 
 
